@@ -78,7 +78,7 @@ def gen_cases(ctx, rng: random.Random, tier: str):
         spec.update(extra)
         specs.append(spec)
 
-    n_val = 2 if tier == "quick" else 6
+    n_val = 2 if tier == "quick" else 12
     # 1. all ordered pairs x {*, /}
     for a in names:
         for b in names:
@@ -106,7 +106,7 @@ def gen_cases(ctx, rng: random.Random, tier: str):
                 add("q-si", {"k": "bin", "op": op, "x": q_spec(ctx, rng, a), "y": si_spec(rng, rnd_sig(rng))})
                 add("q-si", {"k": "bin", "op": op, "x": si_spec(rng, rnd_sig(rng)), "y": q_spec(ctx, rng, a)})
     # 4. SI by SI / number / str: * / + - comparisons, equal and different signatures
-    n_si = 120 if tier == "quick" else 600
+    n_si = 120 if tier == "quick" else 3000
     for _ in range(n_si):
         s1 = rnd_sig(rng)
         s2 = list(s1) if rng.random() < 0.5 else rnd_sig(rng)
@@ -157,7 +157,7 @@ def gen_cases(ctx, rng: random.Random, tier: str):
         for d, h, t in UU.FORMATS:
             add("class-siunit", {"k": "siunit", "x": q_spec(ctx, rng, a, base=True), "div": d, "hat": h, "dot": t})
     # 7. SI construction from text, unit text of results, printer
-    n_sig = 160 if tier == "quick" else 4000
+    n_sig = 160 if tier == "quick" else 10000
     for i in range(n_sig):
         lim = rng.choice([1, 3, 9])
         sig = rnd_sig(rng, lim, dense=(i % 3 == 0))
@@ -413,7 +413,7 @@ def main(tier: str) -> int:
     hist = {}
     fails = {}
     nontrivial = set()
-    n_damaged = 200 if tier == "quick" else 2000
+    n_damaged = 200 if tier == "quick" else 6000
     printed = []
 
     def execute(spec):
